@@ -17,8 +17,8 @@ def job(mode, timeout=900, **kw):
 
 PLANS = {
     "C01": {
-        "quick": [sess("tree", "C01", 400, 25), sess("mixed", "C01", 200, 12), sess("rootfill", "C01", 200, 10), sess("dirfill", "C01", 100, 10), job("c01enum")],
-        "thorough": [sess("tree", "C01", 6000, 420), sess("mixed", "C01", 3000, 240), sess("rootfill", "C01", 3000, 120), sess("dirfill", "C01", 2000, 120), sess("tree", "C01", 800, 90, variant="nouni"), job("c01enum", timeout=3600), sess("tree", "C01", 2000, 120, args={"builder": 1})],
+        "quick": [sess("tree", "C01", 400, 25), sess("mixed", "C01", 200, 12), sess("rootfill", "C01", 200, 10), sess("dirfill", "C01", 100, 10), job("c01enum"), job("iterwalk")],
+        "thorough": [sess("tree", "C01", 6000, 420), sess("mixed", "C01", 3000, 240), sess("rootfill", "C01", 3000, 120), sess("dirfill", "C01", 2000, 120), sess("tree", "C01", 800, 90, variant="nouni"), job("c01enum", timeout=3600), sess("tree", "C01", 2000, 120, args={"builder": 1}), job("iterwalk", timeout=3600), job("iterwalk", variant="noalloc", timeout=3600)],
         "floor": 2000,
     },
     "C02": {
@@ -239,7 +239,7 @@ NOT_APPLICABLE = []
 
 
 RULES.update({
-    "C01": RULES["C01"] + "; plus c01enum: all three-operation sequences over a 118-op alphabet from an empty volume (exhaustive in the thorough tier, strided in quick); fill workloads on tiny fixed roots / tiny volumes",
+    "C01": RULES["C01"] + "; plus c01enum: all three-operation sequences over a 118-op alphabet from an empty volume (exhaustive in the thorough tier, strided in quick); fill workloads on tiny fixed roots / tiny volumes; iterwalk: a directory iterator kept open while entries are created, removed and renamed around its position (termination, no panic, untouched entries shown exactly once, nothing shown that never existed)",
     "C02": RULES["C02"] + "; plus c02grid (initial size x seek target x seek form x op x buffer length over {0,1,cs-1,cs,cs+1,2cs-1,2cs,2cs+1,3cs-1,3cs,3cs+1,size-1,size,size+1} for five cluster sizes x three FAT widths, each as its own history) and the std::io face (write_all/read_exact/read_to_end/seek on StdIoWrapper<Cursor>)",
     "C05": RULES["C05"] + "; plus c05cycle: 8 (quick) / 30 (thorough) fill-to-full / delete-all cycles on 60 volume x directory x stats-order combinations: bytes written per cycle and free count after delete-all must repeat",
     "C09": RULES["C09"] + "; plus random histories with one fault at a random device call of a random operation (reference model up to the fault) and a failing std::io storage behind StdIoWrapper",
